@@ -93,6 +93,9 @@ void init();                               // generate all six instances
 BV mat_mul(const std::vector<BV>& M, const BV& v, int n);
 BV lowmc_encrypt(const LowMC& lm, const BV& key, const BV& pt, std::vector<BV>* round_states = nullptr);
 bytes lowmc_encrypt_bytes(const Params& p, const bytes& key, const bytes& pt);
+// Same function, evaluated with byte-indexed lookup tables derived from the same regenerated matrices (for volume);
+// pinned to the plain evaluation on random inputs when the tables are built.
+BV lowmc_encrypt_fast(int n, int r, const BV& key, const BV& pt);
 
 // ---------------------------------------------------------------- signers
 struct Challenge {            // forced challenge (programmable random oracle)
